@@ -8,7 +8,7 @@
   `sq : Rat → Rat` (theorems state what they need of it), and a rounding `rnd : Rat → Rat`
   applied to the new iterate `x4` (where the C++ rounds the result of sqrt and division); the
   theorems are about `findRoot` = exact arithmetic (`rnd = id`), the driver passes `rndK 200` so
-  that 50 iterations stay bounded.
+  that 200 iterations stay bounded.
 -/
 import LpModel.Basic
 namespace Lp.C02
@@ -24,7 +24,7 @@ inductive Outcome where
   | errNaN                -- "Function returns nan at the brackets", exit
   | errNoSignChange       -- "f(xLeft) * f(xRight) > 0", exit
   | errStuck              -- "Ridder's method does not reach the root", exit
-  | maxIter (r : Rat)     -- 50 iterations used up: warning, returns the last iterate
+  | maxIter (r : Rat)     -- 200 iterations used up: warning, returns the last iterate
   | nanInside             -- the function returned NaN inside the bracket: not modelled
   deriving DecidableEq, Repr
 
@@ -110,8 +110,8 @@ def findRootR (f : Rat → Option Rat) (sq rnd : Rat → Rat) (xl xr acc : Rat) 
       { out := R.out, evals := lo :: hi :: R.evals, heads := R.heads }
   | _, _ => { out := .errNaN, evals := [lo, hi], heads := [] }
 
-/-- `Max_Iterations = 50` -/
-def maxIterations : Nat := 50
+/-- `Max_Iterations = 200` (commit 2511823; was 50) -/
+def maxIterations : Nat := 200
 
 /-- the model the theorems are about: exact arithmetic -/
 def findRoot (f : Rat → Option Rat) (sq : Rat → Rat) (xl xr acc : Rat) : Res :=
